@@ -268,7 +268,26 @@ pub fn check_tuple(ops: &[&CatOp], max_bound: usize, budget_execs: u64) -> PairR
             };
             let key = format!("not-serializable|{label}|{class}");
             if seen_c16.insert(key.clone()) {
-                pr.c16.push((key, json!({"kind": "schedule", "ops": names, "preemption_bound": bound, "schedule": schedule, "results": results, "sequential_results": seq_results.iter().take(6).collect::<Vec<_>>()})));
+                // for a final state that no order produces: the lines in which it differs from the closest sequential final state
+                let diff: Vec<String> = if class == "final-state-of-no-sequential-order" {
+                    let obs: Vec<&str> = fin.lines().collect();
+                    seq_finals
+                        .iter()
+                        .map(|sf| {
+                            let sl: Vec<&str> = sf.lines().collect();
+                            let mut d: Vec<String> = obs.iter().filter(|l| !sl.contains(l)).map(|l| format!("+ {l}")).collect();
+                            d.extend(sl.iter().filter(|l| !obs.contains(l)).map(|l| format!("- {l}")));
+                            d
+                        })
+                        .min_by_key(|d| d.len())
+                        .unwrap_or_default()
+                        .into_iter()
+                        .take(20)
+                        .collect()
+                } else {
+                    vec![]
+                };
+                pr.c16.push((key, json!({"kind": "schedule", "ops": names, "preemption_bound": bound, "schedule": schedule, "results": results, "sequential_results": seq_results.iter().take(6).collect::<Vec<_>>(), "final_state_vs_closest_sequential_final_state": diff})));
             }
         }
         // structural and index invariants of the final state: checked on a replay of every outcome that is otherwise
